@@ -52,6 +52,36 @@ TABLE = [
      "All 511 non-empty subsets of a 3x3 integer-coordinate window x lattice parities x flip x side lengths x offsets, in "
      "both representations: up-sampling (children, count, area, vertices), neighbourhood as geometric sets, index "
      "selection, representation agreement and shape containment on a 7x7 reference lattice.", "4/C20"),
+    ("C06", _SCOPE + " (all small masks x sub-size maps x source-plane menus x rectangular and Delaunay meshes)",
+     "All masks with <= 9 cells x sub-size maps (uniform 1..4, per-pixel int and float maps, every map in {1,2,3}^n for n<=3) "
+     "and 44 mesh geometries (4 source-plane distortions x 5 rectangular shapes + 6 Delaunay vertex menus): mapping matrix, "
+     "row sums, cell / simplex / barycentric weights against an independent interval-arithmetic overlay and a from-scratch "
+     "empty-circumcircle Delaunay triangulation, dense vs unique-mapping encodings, neighbour tables.", "4/C06"),
+    ("C07", _SCOPE + " (meshes x nine schemes x parameter menus; ordered object lists for block placement)",
+     "Rectangular meshes 3..6^2 (7^2) and 8 Delaunay vertex menus x all nine regularization schemes x coefficient / signal-"
+     "scale / adapt-image menus: size, symmetry, PSD / strict PD with Cholesky and the evidence's log-determinant, and the "
+     "entrywise quadratic form against a Laplacian assembled from an independent adjacency; block placement through "
+     "aa.Inversion on every ordered list of 1..3 object kinds with every regularization pattern.", "4/C07"),
+    ("C08", _SCOPE + " (all small masks x two evaluation modes x garbage menus; inversion lists for the evidence)",
+     "All masks with <= 9 cells x value menus x sky offsets in the slim mode and, with four garbage placements in masked "
+     "pixels, in the masked-native mode; all 502 interior masks of the 5x5 frame x a rotating third of 54 ordered object "
+     "lists x both formalisms for the evidence terms (determinants on matrices reduced to regularized parameters); every "
+     "statistic and derived map against its definition.", "4/C08"),
+    ("C13", _SCOPE + " (masks x geometries x baseline sets x preload on/off; operator extraction on basis vectors)",
+     "All masks with <= 8 cells x geometries x baseline sets (zero, repeated, generic) x preload on/off: visibilities, "
+     "transformed mapping matrices (signed / sub-threshold alphabet) and the adjoint image against an explicit DFT "
+     "matrix; interferometer data vector and curvature matrix on ordered object lists against noise-weighted Gram "
+     "products.", "4/C13"),
+    ("C17", _SCOPE + " (all small masks / irregular sets / 1D masks x function grammar x decorators)",
+     "All masks with <= 9 cells x pixel scales x origins, irregular coordinate menus, all 1D masks of length <= 6, and "
+     "relocation rings, through to_array / to_grid / to_vector_yx / project_grid / transform / relocate_to_radial_minimum "
+     "(alone and stacked) with injective, non-symmetric user functions (single, pair and list returns): container type, "
+     "mask, entry k = f(coordinate k), projection geometry, relocation to exactly the minimum.", "4/C17"),
+    ("C18", _SCOPE + " (all small masks x sub-size maps x source-plane menus with outliers)",
+     "All masks of frames with <= 9 cells (frame-touching included), all masks of the 3x3 interior of a 5x5 frame and of "
+     "the 3x4/4x3 frames x sub-size maps x ten source-plane transforms with outliers, border copies and the centroid: "
+     "interior points bitwise unchanged, on-ray, never outward, nearest-border radius, order preserved, mesh-vertex "
+     "variant, farthest sub-pixel selection, mapper_grids_from wrappers.", "4/C18"),
     ("C11", "explicit-state breadth-first exploration of read/derive histories on real object graphs (state = content hash of the graph)",
      "Six families of real object graphs (structures; imaging datasets; inversion + mappers + valued mapper for four "
      "object lists in both formalisms and with the positive solver; calls relying on shared default arguments; seeded "
